@@ -237,6 +237,27 @@ def eval_index(e, env):
     return None
 
 
+def eval_pred(e, env):
+    """Three-valued evaluation of a bool-typed LoopIR expression over {Sym: int|bool}: True, False or None (unknown)."""
+    if isinstance(e, LoopIR.Const):
+        return bool(e.val) if isinstance(e.val, bool) else None
+    if isinstance(e, LoopIR.Read):
+        v = env.get(e.name)
+        return v if isinstance(v, bool) else None
+    if isinstance(e, LoopIR.BinOp):
+        if e.op in ("and", "or"):
+            a, b = eval_pred(e.lhs, env), eval_pred(e.rhs, env)
+            if e.op == "and":
+                return False if (a is False or b is False) else (True if (a and b) else None)
+            return True if (a or b) else (False if (a is False and b is False) else None)
+        if e.op in ("<", ">", "<=", ">=", "=="):
+            a, b = eval_index(e.lhs, env), eval_index(e.rhs, env)
+            if a is None or b is None or isinstance(a, bool) or isinstance(b, bool):
+                return None
+            return {"<": a < b, ">": a > b, "<=": a <= b, ">=": a >= b, "==": a == b}[e.op]
+    return None
+
+
 def fmt_cell(v) -> str:
     if v is None:
         return "none"
@@ -254,26 +275,38 @@ class InputGen:
         self.index_range = index_range
         self.strides = strides
 
+    def controls(self, p):
+        """control-argument values; re-drawn (over widening ranges) while an assertion of p is definitely false,
+        so that procedures with preconditions such as `n > 4` or `n % 8 == 0` still get valid inputs"""
+        rng = self.rng
+        env = {}
+        for attempt in range(60):
+            widen = 0 if attempt < 8 else (attempt // 8) * 4
+            env = {}
+            for a in p.args:
+                t = a.type
+                if isinstance(t, T.Size):
+                    env[a.name] = rng.randint(self.size_range[0], self.size_range[1] + widen)
+                elif isinstance(t, T.Index):
+                    env[a.name] = rng.randint(self.index_range[0], self.index_range[1] + widen)
+                elif isinstance(t, T.Stride):
+                    env[a.name] = rng.choice(self.strides)
+                elif isinstance(t, T.Bool):
+                    env[a.name] = rng.random() < 0.5
+            if not any(eval_pred(q, env) is False for q in p.preds):
+                break
+        return env
+
     def gen(self, p, cfg_types: dict[int, str]):
         rng = self.rng
-        env, args = {}, []
+        env, args = self.controls(p), []
         counter = itertools.count(2)
         for a in p.args:
             t = a.type
-            if isinstance(t, T.Size):
-                v = rng.randint(*self.size_range)
-                env[a.name] = v
-                args.append({"kind": "val", "v": ("i", v)})
-            elif isinstance(t, T.Index):
-                v = rng.randint(*self.index_range)
-                env[a.name] = v
-                args.append({"kind": "val", "v": ("i", v)})
-            elif isinstance(t, T.Stride):
-                v = rng.choice(self.strides)
-                env[a.name] = v
-                args.append({"kind": "val", "v": ("i", v)})
+            if isinstance(t, (T.Size, T.Index, T.Stride)):
+                args.append({"kind": "val", "v": ("i", env[a.name])})
             elif isinstance(t, T.Bool):
-                args.append({"kind": "val", "v": ("b", rng.random() < 0.5)})
+                args.append({"kind": "val", "v": ("b", env[a.name])})
             elif t.is_real_scalar():
                 args.append({"kind": "buf", "off": 0, "shape": [], "strides": [], "cells": [self.cellval(counter)]})
             elif isinstance(t, T.Tensor):
